@@ -6,6 +6,7 @@ import DnaModel.Model.Seq
 import DnaModel.Model.Loc
 import DnaModel.Model.Pattern
 import DnaModel.Model.Space
+import DnaModel.Model.TableSpec
 
 open Dna
 
@@ -237,6 +238,129 @@ def handleChoice : List String → Option String
     pure (choicesStr c.extractVaryingRegion)
   | _ => none
 
+/-! ### solver, table-driven specifications -/
+
+open TableSpec in
+def floatOf? (s : String) : Option Float := (s.toNat?).map (fun n => Float.ofBits n.toUInt64)
+
+def optFloat? (s : String) : Option (Option Float) :=
+  if s == "-" then some none else (floatOf? s).map some
+
+def derive? (s : String) : Option Derive :=
+  if s == "s" then some .same else if s == "c" then some .copy else if s == "f" then some .fresh else none
+
+/-- `-` = None, `e` = empty list, else `a.b.s,a.b.s` -/
+def evalLocs? (s : String) : Option (Option (List Loc)) :=
+  if s == "-" then some none
+  else if s == "e" then some (some [])
+  else do
+    let ls ← (s.splitOn ",").mapM (fun t => match t.splitOn "." with
+      | [a, b, c] => do pure (⟨← int? a, ← int? b, ← int? c⟩ : Loc)
+      | _ => none)
+    pure (some ls)
+
+def faultId? (s : String) : Option Nat :=
+  if s.startsWith "F" then (s.drop 1).toString.toNat? else none
+
+open TableSpec in
+def parseAttr (s : String) : Option (Nat × Attr) :=
+  match s.splitOn ":" with
+  | [h, enf, prio, best, boost, passive, acc, heur] => do
+    pure (← nat? h, { enforced := ← bool? enf, priority := ← int? prio, best := ← optFloat? best,
+                      boost := ← floatOf? boost, passive := ← bool? passive, acceptsRh := ← bool? acc,
+                      hasHeuristic := ← bool? heur })
+  | _ => none
+
+open TableSpec in
+def parseEval (s : String) : Option ((Nat × Seq) × Eval Float) :=
+  match s.splitOn ":" with
+  | [h, sq, score, locs] => do
+    pure ((← nat? h, seqOf sq), { score := ← floatOf? score, locs := ← evalLocs? locs })
+  | _ => none
+
+def parseEvalFault (s : String) : Option (Nat × Nat) :=
+  match s.splitOn ":" with
+  | [k, f] => do pure (← nat? k, ← faultId? f)
+  | _ => none
+
+open TableSpec in
+def parseAlloc (s : String) : Option Alloc :=
+  match s.splitOn ":" with
+  | ["L", h, a, b, st, rh, sq, res] => do
+    let key := (← nat? h, ← int? a, ← int? b, ← int? st, ← nat? rh, seqOf sq)
+    if res == "N" then pure (.loc key (.val none))
+    else match faultId? res with
+      | some n => pure (.loc key (.fault n))
+      | none => match res.splitOn "." with
+        | [h', d] => do pure (.loc key (.val (some (← nat? h', ← derive? d))))
+        | _ => none
+  | ["I", h, sq, role, res] => do
+    let key := (← nat? h, seqOf sq, ← nat? role)
+    match faultId? res with
+    | some n => pure (.init key (.fault n))
+    | none => match res.splitOn "." with
+      | [h', d] => do pure (.init key (.val (← nat? h', ← derive? d)))
+      | _ => none
+  | _ => none
+
+def parseHeur (s : String) : Option ((Nat × Seq) × (Seq × Bool)) :=
+  match s.splitOn ":" with
+  | [h, sq, sq', ok] => do pure ((← nat? h, seqOf sq), (seqOf sq', ← bool? ok))
+  | _ => none
+
+def errStr : Err → String
+  | .noSolution _ => "NoSolution"
+  | .valueError => "ValueError"
+  | .crash _ => "crash"
+  | .fault n => if n ≥ TableSpec.missInit then s!"table-miss:init:{n - TableSpec.missInit}"
+                else if n ≥ TableSpec.missLoc then s!"table-miss:localized:{n - TableSpec.missLoc}"
+                else if n ≥ TableSpec.missEval then s!"table-miss:evaluate:{n - TableSpec.missEval}"
+                else s!"fault:{n}"
+  | .tape => "tape-error"
+  | .tableMiss w => s!"table-miss:{w}"
+
+def parseSettings : List String → Option Settings
+  | [thr, iters, muts, stag, exts] => do
+    let exts ← (exts.splitOn ",").mapM int?
+    pure { randomizationThreshold := ← nat? thr, maxRandomIters := ← nat? iters, mutationsPerIteration := ← nat? muts,
+           stagnationTolerance := ← (if stag == "-" then some none else (nat? stag).map some),
+           localExtensions := exts }
+  | _ => none
+
+def handleSolve (toks : List String) : Option String :=
+  match toks with
+  | cmd :: rest =>
+    match splitBar rest with
+    | [_, sett, [seq0], restrs, [sq], cons, objs, attrs, evals, efaults, allocs, heurs, tape, focus] => do
+      let sett ← parseSettings sett
+      let rs ← restrictions? restrs
+      let tables : TableSpec.Tables := {
+        attrs := ← attrs.mapM parseAttr, evals := ← evals.mapM parseEval,
+        evalFaults := ← efaults.mapM parseEvalFault, allocs := ← allocs.mapM parseAlloc,
+        heurs := ← heurs.mapM parseHeur }
+      let ops := TableSpec.ops tables
+      let tape ← nats? tape
+      let focus ← nats? focus
+      match Space.fromRestrictions (seqOf seq0) rs with
+      | .error e => pure ("space:" ++ spaceErrStr e)
+      | .ok sp =>
+        let P : Problem Nat := { seq := seqOf sq, constraints := ← nats? cons, objectives := ← nats? objs,
+                                 space := sp, seqBefore := seqOf sq }
+        let st : St Nat Float := { shared := { focus := focus }, tape := tape }
+        let run : Option (Except Err Unit × Problem Nat × St Nat Float) :=
+          if cmd == "solve.resolve" then some (Solver.resolveConstraints ops sett P st)
+          else if cmd == "solve.optimize" then some (Solver.optimize ops sett P st)
+          else if cmd == "solve.exh_resolve" then some (Solver.resolveExhaustive ops P st)
+          else if cmd == "solve.rnd_resolve" then some (Solver.resolveRandom ops sett P st)
+          else if cmd == "solve.exh_optimize" then some (Solver.optimizeExhaustive ops P st)
+          else if cmd == "solve.rnd_optimize" then some (Solver.optimizeRandom ops sett P st)
+          else none
+        let (r, P', st') ← run
+        let outcome := match r with | .ok () => "ok" | .error e => errStr e
+        pure s!"{outcome} ; {seqStr P'.seq} ; {joinWith "," (st'.trace.reverse.map seqStr)} ; {tape.length - st'.tape.length}"
+    | _ => none
+  | _ => none
+
 def handle (toks : List String) : String :=
   match toks with
   | [] => "bad-op"
@@ -247,6 +371,7 @@ def handle (toks : List String) : String :=
       else if cmd.startsWith "pat." then handlePat toks
       else if cmd.startsWith "space." then handleSpace toks
       else if cmd.startsWith "choice." then handleChoice toks
+      else if cmd.startsWith "solve." then handleSolve toks
       else none
     r.getD "bad-op"
 
